@@ -30,7 +30,10 @@ POOL = {
     "datetime": ["2020-01-%02d" % d for d in range(1, 13)],
 }
 PATTERNS = ["a", "a|b", "^a", "b$", "a.b", "[ab]+", "a*", "foo|bar", "^(a|x)b",
-            ".", "b|^x", "a\\.b", "é"]
+            ".", "b|^x", "a\\.b", "é", "\\w+$", "\\w"]
+# flags of a *compiled* pattern (str_matches / str_contains accept re.Pattern):
+# [] = compiled without flags
+PATTERN_FLAGS = [["I"], ["I"], ["A"], ["I", "A"], []]
 NAMES = ["a", "b", "c", "ab", "ba", "x", "col_1", "a b"]
 
 
@@ -62,6 +65,8 @@ def gen_check(rng, dtype, neutral=False):
         a["forbidden_values"] = rng.sample(pool, rng.randint(1, min(3, len(pool))))
     elif k in ("str_matches", "str_contains"):
         a["pattern"] = rng.choice(PATTERNS)
+        if not neutral and rng.random() < 0.3:
+            a["flags"] = list(rng.choice(PATTERN_FLAGS))
     elif k in ("str_startswith", "str_endswith"):
         a["string"] = rng.choice(["a", "b", "ab", "a.b", "", "é"])
     elif k == "str_length":
@@ -135,7 +140,7 @@ def gen_spec(rng, *, neutral=False, kind=None, max_cols=4, allow_index=True,
         # (polars anchors the pattern at both ends: only patterns that mean the
         # same under prefix and full matching are used there)
         pat = rng.choice(["r_.*", "r\\d"] if neutral else ["r_.*", "r\\d", "r_a|r_b", "r"])
-        fs = gen_field(rng, pat)
+        fs = gen_field(rng, pat, neutral=neutral)
         fs["regex"] = True
         fs["required"] = rng.random() < 0.7
         cols.insert(rng.randint(0, len(cols)), fs)
@@ -361,6 +366,9 @@ def mutate(rng, spec, table, k=None):
             ops += ["drop_col", "extra_col", "reorder", "dup_label"]
         else:
             ops += ["rename"]
+        if spec.get("index") and len(spec["index"]) == 1 and spec["index"][0]["name"] is not None \
+                and t.get("index") and len(t["index"]["levels"]) == 1:
+            ops += ["index_rename"]
         op = rng.choice(ops)
         if op in ("check", "null", "dup", "dtype") and not fields:
             continue
@@ -436,7 +444,50 @@ def mutate(rng, spec, table, k=None):
         elif op == "rename":
             t["columns"][0]["name"] = rng.choice(["s", "other", None])
             done.append(("rename",))
+        elif op == "index_rename":
+            # a named single Index component against an index that carries
+            # another name / no name
+            lev = t["index"]["levels"][0]
+            lev["name"] = rng.choice([None, None, "other", "i1"])
+            done.append(("index_rename", lev["name"]))
     return done
+
+
+def gen_dtype_only_case(rng):
+    """A DataFrameSchema that declares only a dataframe-level dtype (no
+    columns): every column of the frame must have that dtype.  Labels are
+    arbitrary (relabelled to ints / falsy labels most of the time)."""
+    dtype = rng.choice(DTYPES)
+    spec = {"kind": "frame", "columns": [], "index": None, "_neutral": False,
+            "strict": False, "ordered": False, "unique": None,
+            "report_duplicates": "all", "unique_column_names": False,
+            "add_missing_columns": False, "coerce": False,
+            "drop_invalid_rows": False, "dtype": dtype}
+    n = rng.choice([0, 1, 2, 3, 4])
+    if dtype in ("int64", "float64") and rng.random() < 0.3:
+        spec["checks"] = [gen_check(rng, "float64")]
+    cols = []
+    for name in rng.sample(NAMES, rng.randint(1, 4)):
+        pool = POOL[dtype]
+        if spec.get("checks") and rng.random() < 0.7:
+            ok = [x for x in pool if model.check_cell(spec["checks"][0], x)]
+            pool = ok or pool
+        cols.append({"name": name, "phys": PHYS_OF[dtype],
+                     "values": [rng.choice(pool) for _ in range(n)]})
+    table = {"columns": cols, "index": gen_table_index(rng, spec, n)}
+    muts = []
+    if rng.random() < 0.5:
+        c = rng.choice(cols)
+        if rng.random() < 0.6:
+            phys = rng.choice(WRONG_PHYS[dtype])
+            vals = convert_phys(c["values"], dtype, phys, rng)
+            if vals is not None:
+                c["values"], c["phys"] = vals, phys
+                muts.append(("dtype", c["name"], phys, "column"))
+        elif c["values"] and c["phys"] in ("float64", "object", "datetime"):
+            c["values"][rng.randrange(len(c["values"]))] = None
+            muts.append(("null", c["name"], "column"))
+    return spec, table, muts
 
 
 def gen_case(rng, **kw):
@@ -447,3 +498,135 @@ def gen_case(rng, **kw):
     if rng.random() < 0.55:
         muts = mutate(rng, spec, table)
     return spec, table, muts
+
+
+# ---------------------------------------------------------------- labels
+# Labels that are legal in pandas but falsy in Python: the first default
+# integer label, 0.0, False and the empty string.  `if name:` / `if key:`
+# instead of `is not None` in the code under test treats them as "no label".
+FALSY = [0, 0, 0.0, False, "", ""]
+
+
+def _flat_unique(spec):
+    uq = spec.get("unique") or []
+    out = []
+    for x in uq:
+        out.extend(x if isinstance(x, (list, tuple)) else [x])
+    return out
+
+
+def relabel(rng, spec, *tables, p=0.3, polars=False):
+    """With probability ``p`` rename column labels / index and level names /
+    the Series name to falsy-but-legal labels, consistently in the spec and in
+    every table given (tables must share their labels: a raw table and its
+    typed twin).  Returns descriptors of what was renamed.
+
+    * labels that a regex column matches keep their text (the pattern must go
+      on matching) and so do the patterns themselves;
+    * labels listed in the joint ``unique`` option may only become "" (the
+      option is documented as a list of *str*);
+    * at most one of 0 / 0.0 / False per frame (they are the same dict key);
+    * polars: nothing is renamed.  Column names are strings there, and the one
+      falsy string is not supported by polars itself: ``LazyFrame.cast({"":
+      dtype})`` silently ignores the entry (polars 1.44), so a coerce / added
+      column named "" is a polars matter, not a statement about pandera.
+    """
+    if polars or rng.random() >= p:
+        return []
+    done = []
+    falsy = [""] if polars else FALSY
+    if spec["kind"] == "series":
+        fs = spec["field"]
+        new = rng.choice(falsy)
+        old = fs["name"]
+        if old is not None:
+            fs["name"] = new
+            for t in tables:
+                if t["columns"][0]["name"] == old:
+                    t["columns"][0]["name"] = new
+            done.append(("series_name", repr(new)))
+        elif rng.random() < 0.5:
+            for t in tables:
+                t["columns"][0]["name"] = new
+            done.append(("series_name_undeclared", repr(new)))
+    else:
+        patterns = [c["name"] for c in spec["columns"] if c.get("regex")]
+        labels = []
+        for c in spec["columns"]:
+            if not c.get("regex") and c["name"] not in labels:
+                labels.append(c["name"])
+        for t in tables[:1]:
+            for c in t["columns"]:
+                if c["name"] not in labels:
+                    labels.append(c["name"])
+        free = [l for l in labels if isinstance(l, str)
+                and not any(model.match_regex(pt, l) for pt in patterns)]
+        joint = set(_flat_unique(spec))
+        mapping = {}
+        scheme = "one" if polars else rng.choice(["ints", "one", "one"])
+        if scheme == "ints":
+            k = 0
+            for l in free:
+                if l in joint:
+                    continue
+                mapping[l] = k
+                k += 1
+        elif free:
+            l = rng.choice(free)
+            mapping[l] = "" if l in joint else rng.choice(falsy)
+        mapping = {k: v for k, v in mapping.items() if v not in labels or v == k}
+        if mapping:
+            for c in spec["columns"]:
+                if not c.get("regex") and c["name"] in mapping:
+                    c["name"] = mapping[c["name"]]
+            if spec.get("unique"):
+                spec["unique"] = [
+                    [mapping.get(y, y) for y in x] if isinstance(x, (list, tuple))
+                    else mapping.get(x, x) for x in spec["unique"]]
+            for t in tables:
+                for c in t["columns"]:
+                    if isinstance(c["name"], str) and c["name"] in mapping:
+                        c["name"] = mapping[c["name"]]
+            done.append(("columns:" + scheme, sorted(map(repr, mapping.values()))))
+    if polars:
+        return done
+    # index / level names
+    ix = spec.get("index")
+    tlev = [(t.get("index") or {}).get("levels") for t in tables]
+    if ix and rng.random() < 0.6:
+        if len(ix) == 1:
+            old = ix[0]["name"]
+            if old is not None:
+                new = rng.choice(falsy)
+                ix[0]["name"] = new
+                for lv in tlev:
+                    if lv and len(lv) == 1 and lv[0]["name"] == old:
+                        lv[0]["name"] = new
+                done.append(("index_name", repr(new)))
+        else:
+            names = [f["name"] for f in ix]
+            if all(lv and [l["name"] for l in lv] == names for lv in tlev):
+                if rng.random() < 0.5:
+                    new = list(range(len(ix)))        # level names == level numbers
+                else:
+                    new = list(names)
+                    new[rng.randrange(len(new))] = ""
+                for f, n in zip(ix, new):
+                    f["name"] = n
+                for lv in tlev:
+                    for l, n in zip(lv, new):
+                        l["name"] = n
+                done.append(("level_names", repr(new)))
+    elif not ix and tlev and tlev[0] and rng.random() < 0.4:
+        # an index the schema does not declare
+        if len(tlev[0]) == 1:
+            new = rng.choice(falsy)
+            for lv in tlev:
+                lv[0]["name"] = new
+            done.append(("undeclared_index_name", repr(new)))
+        else:
+            for lv in tlev:
+                for i, l in enumerate(lv):
+                    l["name"] = i
+            done.append(("undeclared_level_names", "ints"))
+    return done
